@@ -35,11 +35,11 @@ ASSUMPTIONS = ["data_type = soc; every order ranks every alternative exactly onc
                "k_alternative_partition_brut_force returns ONE partition (a list of axes) or None - the docstring's "
                "'list of optimal partitions' is not what the code does; the property text ('returns such a partition') "
                "agrees with the code"]
-TIMEOUT_S = 20.0
-CHUNK = 6
+TIMEOUT_S = 30.0
+CHUNK = 4
 THEOREMS_FOR_OP = {"c18.approx": "partition_check_correct / check_valid_bound",
                    "c18.bf": "brute_force_ok_correct / min_partition_correct / partition_check_correct"}
-REF_MAX_M = 7      # the reference optimum is run up to this size
+REF_MAX_M = 8      # the reference optimum is run up to this size
 
 
 # ------------------------------------------------------------------------------------------------ generators
@@ -148,23 +148,31 @@ def generate(tier, seed):
         add_bf(alts, sub, sampled4=1)
         add_approx(alts, sub, sampled4=1)
 
-    # ---- brute force: random / planted, m <= 6 (7), n <= 4, arbitrary ids
-    nbf = 700 if not thorough else 9000
-    mmax = 6 if not thorough else 7
+    # ---- brute force: random / planted, m <= 7 (8) plus a few at 8 (9), n <= 4 (cyclic style: n <= 6), arbitrary ids
+    nbf = 2600 if not thorough else 24000
+    mmax = 7 if not thorough else 8
     for i in range(nbf):
-        m = rng.randint(1, mmax) if i % 5 else rng.choice([mmax - 1, mmax])
+        m = rng.randint(1, mmax) if i % 5 else rng.choice([mmax - 2, mmax - 1, mmax])
+        if i % 20 == 7:
+            m = mmax + 1 if (not thorough or i % 80 == 7) else mmax
         alts = rand_ids(rng, m)
         n = rng.randint(1, 4)
-        style = i % 4
+        style = i % 6
         if style == 0 or m == 1:
             votes = [rand_perm(rng, alts) for _ in range(n)]
         elif style == 1:
             votes = planted(rng, alts, rng.randint(1, max(1, (m + 1) // 2)), n)
         elif style == 2:      # planted + one noise vote
             votes = planted(rng, alts, rng.randint(1, max(1, m // 2)), max(1, n - 1)) + [rand_perm(rng, alts)]
-        else:                 # reversal pairs: many alternatives compete for the last place
+        elif style == 3:      # reversal pairs: many alternatives compete for the last place
             v = rand_perm(rng, alts)
             votes = [v, v[::-1]] + [rand_perm(rng, alts) for _ in range(n - 2)]
+        elif style == 4:      # cyclic shifts: no three alternatives are single-peaked together when all shifts are present
+            v = rand_perm(rng, alts)
+            sh = rng.sample(range(m), min(m, rng.randint(2, 6)))
+            votes = [v[j:] + v[:j] for j in sh]
+        else:                 # many random votes: optimum close to ceil(m/2)
+            votes = [rand_perm(rng, alts) for _ in range(rng.randint(3, 4))]
         rng.shuffle(votes)
         votes = distinct(votes)
         mults = [rng.choice([1, 1, 2, 7]) for _ in votes]
@@ -172,20 +180,20 @@ def generate(tier, seed):
         if i % 4 == 0:
             add_approx(rand_perm(rng, alts), votes, mults, style=style)
 
-    # ---- approx: all sizes (checker only above REF_MAX_M)
-    nap = 170 if not thorough else 1500
+    # ---- approx: all sizes (checker only above REF_MAX_M).  The dynamic programme is exponential on profiles that are
+    # (nearly) single-peaked on many alternatives, so the hidden blocks of the large planted cases are kept <= 14 long
+    nap = 150 if not thorough else 1500
     for i in range(nap):
         big = i % 3 == 0
-        m = rng.randint(8, 25) if big else rng.randint(2, 12)
-        if big and not thorough and i % 9 == 0:
-            m = rng.randint(20, 25)
+        style = (i // 3) % 3
+        m = rng.randint(9, 25) if big else rng.randint(2, 12)
         alts = rand_ids(rng, m)
         n = rng.randint(1, 15 if m <= 18 else 8)
-        style = i % 3
+        kmin = max(1, (m + 13) // 14)
         if style == 0:
-            votes = planted(rng, alts, rng.randint(1, max(1, min(6, m // 2))), n)
+            votes = planted(rng, alts, rng.randint(kmin, max(kmin, min(6, m // 2))), n)
         elif style == 1:
-            votes = planted(rng, alts, rng.randint(1, max(1, min(4, m // 3))), n) + \
+            votes = planted(rng, alts, rng.randint(kmin, max(kmin, min(4, m // 3))), n) + \
                     [rand_perm(rng, alts) for _ in range(rng.randint(1, 2))]
         else:
             votes = [rand_perm(rng, alts) for _ in range(min(n, 6))]
